@@ -404,7 +404,7 @@ def main(replay=None):
     p = 0
     for order, npts in zip((1, 2, 3), r6[0][1:4]):
         rules[order] = (npts, r6[1][p:p + 4 * npts]); p += 4 * npts
-    ic = integ_cases(ck.rng, rules, 300 if quick else 3000)
+    ic = integ_cases(ck.rng, rules, 300 if quick else 10000)
     corpus = []
     cp = os.path.join(core.VERIF, "corpus", "C08.txt")
     if os.path.exists(cp):
@@ -417,12 +417,12 @@ def main(replay=None):
     istats = judge_integ(ck, ic, mo, ho, h)
 
     # ---- S + M on generated head models
-    nmodels = 6 if quick else 20
+    nmodels = 6 if quick else 40
     kinds = ["nested", "nonconductive", "split", "inclusions", "nested", "nonconductive"]
     allspecs = []; infos = []; nstruct = 0; struct_mis = 0; nspec_fail = 0; worst_add = {}
     for mid in range(nmodels):
         kind = kinds[mid] if mid < len(kinds) else ck.rng.choice(kinds)
-        m = models.random_model(ck.rng, 1, kinds=(kind,))
+        m = models.random_model(ck.rng, 2 if (not quick and mid % 7 == 6) else 1, kinds=(kind,))     # thorough: some 162-vertex meshes
         if ck.rng.random() < 0.5:   # moved / scaled heads: nothing here may depend on the frame
             m = models.move_model(m, models.rational_quaternion(ck.rng), (ck.rng.uniform(-1, 1), ck.rng.uniform(-1, 1), ck.rng.uniform(-1, 1)), ck.rng.choice([1.0, 0.1, 80.0]))
             s = 1.0  # info: recompute the outer radius and centre from the meshes
@@ -462,6 +462,7 @@ def main(replay=None):
                        "Domain::contains is abstract (C11/C12); the structure tie takes containment from the library",
                        "one thread (OMP_NUM_THREADS=1): the accumulation order inside operatorDipolePotDer is the sequential one",
                        "Vector index assertions are modelled by a pre-check of all indices the loops touch (dom_ok), equivalent in outcome"]
+    ck.drop_proof_violation_if(any(v[3] for v in ck.violations))
     return ck.finish()
 
 def scaled_integ_line(hl, lam):
